@@ -110,7 +110,7 @@ def run(ck, prog):
                     keyo |= prov.origins(ib, a)
                 if any(x[0] == "call" and x[1].endswith("::get") or (x[0] == "call" and "copied" in x[1]) or x[0] in ("call",) for x in keyo):
                     # polarity: descent must be on the "not seen before" side
-                    if polarity_ok(ib, j, d, c):
+                    if polarity_ok(ib, j, d, c) and not shrinks(prog, ib, tt):
                         g = True
                         detail.append(c.rsplit("::", 2)[-2] + "::" + c.rsplit("::", 1)[-1])
         guarded = guarded and g
@@ -203,6 +203,36 @@ def run(ck, prog):
     ck.ob("R16.5", "root", len(sr) == 1 and prov.origins(b, sr[0][1]["args"][1]) == {("arg", 3, ())},
           "SourceRoot::new(file_set, root_file) with the function's root argument",
           msg="collect_sources builds the SourceRoot with a root other than its root_file argument")
+
+
+SHRINK = re.compile(r"(Vec::<T, A>|Vec::<T>|VecDeque::<T, A>|HashSet::<[^>]*>|BTreeSet::<T>|HashMap::<[^>]*>|IndexSet::<T, S>)::"
+                    r"(pop|pop_back|pop_front|remove|swap_remove|truncate|clear|retain|drain|take)$")
+
+
+def receiver_field(body, term):
+    """name of the struct field the receiver of a collection call lives in (through refs / derefs), or None"""
+    names = set()
+    for x in prov.origins(body, term["args"][0]):
+        fields = x[2] if x[0] == "arg" else (x[3] if x[0] == "call" else ())
+        fs = [f for f in fields if isinstance(f, str) and not f.startswith("as:") and not f.isdigit()]
+        if fs:
+            names.add(fs[-1])
+    return next(iter(names)) if len(names) == 1 else None
+
+
+def shrinks(prog, body, test_term):
+    """is the collection that is tested ever shrunk (pop / remove / truncate / clear ..) by the indexer? A stack of the
+    files being indexed stops cycles but forgets a file once it is done: it is not a visited set."""
+    fld = receiver_field(body, test_term)
+    if fld is None:
+        return False
+    for b in prog.bodies.values():
+        if b.crate != body.crate:
+            continue
+        for _, t in b.calls():
+            if SHRINK.search(Body.callee(t) or "") and t["args"] and receiver_field(b, t) == fld:
+                return True
+    return False
 
 
 def polarity_ok(b, test_bb, target_bb, callee):
